@@ -129,7 +129,21 @@ impl Ls {
         use nix::unistd::{Gid, Group, Uid, User};
         use std::os::unix::fs::{MetadataExt, PermissionsExt};
 
-        let metadata = file_info.metadata().unwrap();
+        let metadata = match file_info.metadata() {
+            Ok(metadata) => metadata,
+            Err(e) => {
+                // e.g. the entry has been removed by an earlier action
+                writeln!(
+                    &mut stderr(),
+                    "Error getting metadata for {}: {}",
+                    file_info.path().to_string_lossy(),
+                    e
+                )
+                .unwrap();
+                matcher_io.set_exit_code(1);
+                return;
+            }
+        };
 
         let inode_number = metadata.ino();
         let number_of_blocks = {
